@@ -7,7 +7,8 @@ Semantic form (small JSON):
    'wmi': None | [nc][nc] ints, 'wfiles': 'none'|'wmi'|'wm'|'both', 'positions': [nc][2] ints,
    'shanks': None | [nc] ints, 'nclosest': int, 'thr': [p, q], 'tmpl_dtype': 'float32'|'float64',
    'cols_dtype': 'int32'|'int64', 'st': [n_spikes] template ids, 'sc': None | [n_spikes] cluster ids,
-   'scale': None | int (template_scaling keyword of TemplateModel; None = attribute absent)}"""
+   'scale': None | int (template_scaling keyword of TemplateModel; None = attribute absent),
+   'amps': absent | True (write amplitudes.npy)}"""
 from fractions import Fraction
 
 
@@ -73,6 +74,8 @@ def files_of(sem):
     }
     if sem.get('sc') is not None:
         files['spike_clusters.npy'] = _spec('uint32', [len(st)], sem['sc'])
+    if sem.get('amps'):                                         # needed by get_amplitudes_true (history axis)
+        files['amplitudes.npy'] = _spec('float64', [len(st)], [float(1 + (3 * i) % 7) for i in range(len(st))])
     if sem.get('shanks') is not None:
         files['channel_shanks.npy'] = _spec('int32', [nc], sem['shanks'])
     nloc = len(sem['templates'][0][0])
